@@ -23,6 +23,22 @@ theorem of_mem_tagsOf {m : List (List Char × List Char)} {k r : List Char} (h :
   subst this
   exact he
 
+theorem lookup_isSome_of_mem {α : Type} (l : List (List Char × α)) (k : List Char) (v : α)
+    (h : (k, v) ∈ l) : (l.lookup k).isSome = true := by
+  induction l with
+  | nil => simp at h
+  | cons p ps ih =>
+    obtain ⟨k', v'⟩ := p
+    simp only [List.lookup]
+    cases hk : (k == k') with
+    | true => simp
+    | false =>
+      simp only
+      have hne : k ≠ k' := by simpa using hk
+      cases List.mem_cons.mp h with
+      | inl e => exact absurd (Prod.mk.inj e).1 hne
+      | inr e => exact ih e
+
 /-- the mapping in effect sends a tag to at most one definition -/
 theorem effMapping_functional (refs : List (List Char)) (m : List (List Char × List Char))
     (hn : namesNodup (m.map (·.1)) = true) {k r r' : List Char}
